@@ -40,7 +40,8 @@ CatBad(k) == \/ k.qt \notin QTs0
 BadCats == { CatsJ[i].cat : i \in { j \in 1..NC : CatBad(CatsJ[j]) } }
 \* default categories resolve: a unit's default category exists and has the unit's quantity type
 CatQt == [c \in { CatsJ[i].cat : i \in 1..NC } |-> (CHOOSE i \in 1..NC : CatsJ[i].cat = c)]
-BadDefCat == { Rows[i].unit : i \in { j \in 1..NR : Rows[j].defcat # "" /\
+\* (required where the database defines categories at all)
+BadDefCat == IF NC = 0 THEN {} ELSE { Rows[i].unit : i \in { j \in 1..NR : Rows[j].defcat # "" /\
                  (Rows[j].defcat \notin DOMAIN CatQt \/ CatsJ[CatQt[Rows[j].defcat]].qt # Rows[j].qt) } }
 
 ASSUME JsonSerialize(IOEnv.OUT_FILE,
